@@ -23,7 +23,14 @@ META = {
     "for any number of iterations (known finding D24).  Under that hypothesis (and max_concurrent >= 1): an iteration that "
     "awaits nothing ends the submission, dispatches a job or starts a node (C18_idle_round_progress), every run performs at "
     "most 2*(jobs dispatched) + (nodes) + 2 iterations (C18_fault_free_bound: each iteration increases a bounded potential) "
-    "and any longer schedule finds the submission ended (C18_fault_free_terminates).  Tied to the code by running acyclic "
+    "and any longer schedule finds the submission ended (C18_fault_free_terminates); the synchronous loop of the debug worker ends within "
+    "2*(jobs) + 2*(nodes) + 3 iterations (C18_sync_terminates).  Every end of a fault-free run, the stall detector's included, "
+    "reports exactly the failed jobs, and `stall` only when none failed (C18_every_end).  Cost of the scan: a poll marks failure "
+    "consequences one level per poll and stops at the first not-started node whose predecessors are not done, but it examines every node all "
+    "of whose earlier nodes are started (C18_one_level_per_poll, C18_examined_when_earlier_started); a failure followed by 12 "
+    "dependent nodes ends through the stall detector with the job's error (C18_long_failure_chain), and 12 consecutive zero-job "
+    "nodes end a run without any failure as a stall (C18_long_empty_chain_stalls; outside the quantifiers of the check, observed on "
+    "the code as an IndexError in the detector's diagnostic).  Tied to the code by running acyclic "
     "workflows with failures, workflows with typed and untyped back edges (node.inputs.x = later.out), and lost-job schedules "
     "under the controlled worker, every submission under a watchdog.",
     "note": "Trusted: Lean kernel; hand-written models (Graph/Model.lean, Sched/Model.lean); asyncio.sleep(1) of the stall detector is "
@@ -57,6 +64,12 @@ OBLIGATIONS = [
         "C18_lost_result_fixpoint",
         "C18_lost_result_livelock",
         "C18_partial",
+        "C18_every_end",
+        "C18_one_level_per_poll",
+        "C18_examined_when_earlier_started",
+        "C18_long_failure_chain",
+        "C18_long_empty_chain_stalls",
+        "C18_sync_terminates",
     )
 ]
 LEAN_TARGETS = ["PydraModel.Props.C18"]
